@@ -1,7 +1,11 @@
-(* C41 -- proofs about model/C41.v *)
+(* C41 -- proofs about model/C41.v, part 1: prefix/suffix/index, split/join,
+   replace, repeat, code points, bytes, QuoteMeta and the literal fragment. *)
 From verif Require Import lib.Base lib.ListX lib.Utf8 lib.Utf8_proofs model.C41.
 From Coq Require Import ZifyBool ZifyNat ZifyN.
 Open Scope nat_scope.
+
+(* ------------------------------------------------------------------ *)
+(* prefix, suffix *)
 
 Lemma has_prefix_iff s p : has_prefix s p = true <-> exists t, s = p ++ t.
 Proof.
@@ -12,4 +16,432 @@ Proof.
     + rewrite andb_true_iff, N.eqb_eq, IH. split.
       * intros [-> [t ->]]. exists t. reflexivity.
       * intros [t H]. cbn in H. inversion H; subst. split; [reflexivity | exists t; reflexivity].
+Qed.
+
+Lemma has_suffix_iff s p : has_suffix s p = true <-> exists t, s = t ++ p.
+Proof.
+  unfold has_suffix. rewrite has_prefix_iff. split.
+  - intros [t H]. exists (rev t). apply (f_equal (@rev N)) in H.
+    rewrite rev_involutive, rev_app_distr, rev_involutive in H. exact H.
+  - intros [t ->]. exists (rev t). apply rev_app_distr.
+Qed.
+
+Lemma prefix_firstn (s p : bytes) : (exists t, s = p ++ t) <-> firstn (length p) s = p.
+Proof.
+  split.
+  - intros [t ->]. rewrite firstn_app, Nat.sub_diag, firstn_all. cbn. apply app_nil_r.
+  - intros H. exists (skipn (length p) s). rewrite <- H at 1. symmetry; apply firstn_skipn.
+Qed.
+
+Lemma has_prefix_spec s p : has_prefix s p = is_prefix_spec s p.
+Proof.
+  unfold is_prefix_spec. apply eq_true_iff_eq.
+  rewrite has_prefix_iff, prefix_firstn, bytes_eqb_spec. reflexivity.
+Qed.
+
+Lemma suffix_skipn (s p : bytes) :
+  (exists t, s = t ++ p) <-> length p <= length s /\ skipn (length s - length p) s = p.
+Proof.
+  split.
+  - intros [t ->]. rewrite app_length. split; [lia|].
+    replace (length t + length p - length p) with (length t) by lia.
+    rewrite skipn_app, Nat.sub_diag, skipn_all. reflexivity.
+  - intros [L H]. exists (firstn (length s - length p) s). rewrite <- H at 2.
+    symmetry; apply firstn_skipn.
+Qed.
+
+Lemma has_suffix_spec s p : has_suffix s p = is_suffix_spec s p.
+Proof.
+  unfold is_suffix_spec. apply eq_true_iff_eq.
+  rewrite has_suffix_iff, suffix_skipn, andb_true_iff, Nat.leb_le, bytes_eqb_spec. reflexivity.
+Qed.
+
+Lemma trim_prefix_is_spec s p : trim_prefix s p = trim_prefix_spec s p.
+Proof. unfold trim_prefix, trim_prefix_spec. rewrite has_prefix_spec. reflexivity. Qed.
+
+Lemma trim_suffix_is_spec s p : trim_suffix s p = trim_suffix_spec s p.
+Proof. unfold trim_suffix, trim_suffix_spec. rewrite has_suffix_spec. reflexivity. Qed.
+
+Lemma trim_prefix_def s p :
+  (has_prefix s p = true -> p ++ trim_prefix s p = s)
+  /\ (has_prefix s p = false -> trim_prefix s p = s).
+Proof.
+  unfold trim_prefix. split; intros H; rewrite H; [|reflexivity].
+  apply has_prefix_iff in H as [t ->].
+  rewrite skipn_app, Nat.sub_diag, skipn_all. reflexivity.
+Qed.
+
+Lemma trim_suffix_def s p :
+  (has_suffix s p = true -> trim_suffix s p ++ p = s)
+  /\ (has_suffix s p = false -> trim_suffix s p = s).
+Proof.
+  unfold trim_suffix. split; intros H; rewrite H; [|reflexivity].
+  apply has_suffix_iff in H as [t ->]. rewrite app_length.
+  replace (length t + length p - length p) with (length t) by lia.
+  rewrite firstn_app, Nat.sub_diag, firstn_all. cbn. rewrite app_nil_r. reflexivity.
+Qed.
+
+(* ------------------------------------------------------------------ *)
+(* Index *)
+
+Lemma index_nil sub : index [] sub = if has_prefix [] sub then Some 0 else None.
+Proof. reflexivity. Qed.
+Lemma index_cons c r sub :
+  index (c :: r) sub = if has_prefix (c :: r) sub then Some 0 else option_map S (index r sub).
+Proof. reflexivity. Qed.
+
+(* the answer is an occurrence, and the first one *)
+Lemma index_some s sub : forall m, index s sub = Some m ->
+  m <= length s /\ has_prefix (skipn m s) sub = true
+  /\ forall j, j < m -> has_prefix (skipn j s) sub = false.
+Proof.
+  induction s as [|c r IH]; intros m.
+  - rewrite index_nil. destruct (has_prefix [] sub) eqn:P; [|discriminate].
+    intros [= <-]. cbn. split; [lia|]. split; [exact P | intros j Hj; lia].
+  - rewrite index_cons. destruct (has_prefix (c :: r) sub) eqn:P.
+    + intros [= <-]. split; [cbn; lia|]. split; [exact P | intros j Hj; lia].
+    + destruct (index r sub) as [m'|] eqn:I; [|discriminate]. cbn. intros [= <-].
+      destruct (IH m' eq_refl) as (L & O & F). split; [cbn; lia|]. split; [exact O|].
+      intros [|j] Hj; [exact P | cbn; apply F; lia].
+Qed.
+
+Lemma index_none s sub : index s sub = None ->
+  forall j, j <= length s -> has_prefix (skipn j s) sub = false.
+Proof.
+  induction s as [|c r IH].
+  - rewrite index_nil. destruct (has_prefix [] sub) eqn:P; [discriminate|].
+    intros _ j Hj. cbn in Hj. replace j with 0 by lia. exact P.
+  - rewrite index_cons. destruct (has_prefix (c :: r) sub) eqn:P; [discriminate|].
+    destruct (index r sub) eqn:I; [discriminate|]. intros _ [|j] Hj; [exact P|].
+    cbn. apply IH; [reflexivity | cbn in Hj; lia].
+Qed.
+
+(* the cut an occurrence makes *)
+Lemma index_cut s sub m : index s sub = Some m ->
+  s = firstn m s ++ sub ++ skipn (m + length sub) s /\ m + length sub <= length s.
+Proof.
+  intros H. destruct (index_some s sub m H) as (L & O & _).
+  apply has_prefix_iff in O as [t E].
+  assert (T : t = skipn (m + length sub) s).
+  { rewrite <- skipn_skipn, E, skipn_app, Nat.sub_diag, skipn_all. reflexivity. }
+  split.
+  - rewrite <- T, <- E. symmetry; apply firstn_skipn.
+  - apply (f_equal (@length N)) in E. rewrite skipn_length, app_length in E. lia.
+Qed.
+
+(* ------------------------------------------------------------------ *)
+(* Join after Split *)
+
+Lemma join_cons_ne sep x l : l <> [] -> join sep (x :: l) = x ++ sep ++ join sep l.
+Proof. destruct l; [congruence | reflexivity]. Qed.
+
+Lemma splitn_fuel_ne f k sep s : splitn_fuel f k sep s <> [].
+Proof.
+  destruct f; cbn [splitn_fuel]; [discriminate|].
+  destruct (is_zero k); [discriminate|]. destruct (index s sep); discriminate.
+Qed.
+
+(* whatever the fuel and the limit: joining gives the string back *)
+Lemma join_splitn f : forall k sep s, join sep (splitn_fuel f k sep s) = s.
+Proof.
+  induction f as [|f IH]; intros k sep s; cbn [splitn_fuel]; [reflexivity|].
+  destruct (is_zero k); [reflexivity|].
+  destruct (index s sep) as [m|] eqn:I; [|reflexivity].
+  rewrite join_cons_ne by apply splitn_fuel_ne. rewrite IH.
+  symmetry. apply (index_cut s sep m I).
+Qed.
+
+Lemma join_nil_concat l : join [] l = concat l.
+Proof.
+  induction l as [|x l IH]; [reflexivity|]. destruct l as [|y l]; [cbn; symmetry; apply app_nil_r|].
+  rewrite join_cons_ne by discriminate. rewrite IH. reflexivity.
+Qed.
+
+Lemma concat_explode f : forall k s, concat (explode_fuel f k s) = s.
+Proof.
+  induction f as [|f IH]; intros k s; destruct s as [|c r]; cbn [explode_fuel]; try reflexivity.
+  - cbn. rewrite app_nil_r. reflexivity.
+  - destruct (is_zero k); [cbn; rewrite app_nil_r; reflexivity|].
+    cbn [concat]. rewrite IH. apply firstn_skipn.
+Qed.
+
+Lemma join_split max sep s : max <> 0%Z -> join sep (str_split max sep s) = s.
+Proof.
+  intros H. unfold str_split. destruct (Z.eqb_spec max 0); [contradiction|].
+  destruct sep as [|b sep]; [rewrite join_nil_concat; apply concat_explode | apply join_splitn].
+Qed.
+
+(* the fuel the wrapper passes is enough: any larger fuel gives the same pieces *)
+Lemma splitn_fuel_enough f : forall g k sep s, sep <> [] ->
+  length s < f -> length s < g -> splitn_fuel f k sep s = splitn_fuel g k sep s.
+Proof.
+  induction f as [|f IH]; intros g k sep s Hs Lf Lg; [lia|].
+  destruct g as [|g]; [lia|]. cbn [splitn_fuel].
+  destruct (is_zero k); [reflexivity|].
+  destruct (index s sep) as [m|] eqn:I; [|reflexivity].
+  destruct (index_cut s sep m I) as (_ & L).
+  assert (0 < length sep) by (destruct sep; [congruence | cbn; lia]).
+  f_equal. apply IH; [exact Hs | rewrite skipn_length; lia | rewrite skipn_length; lia].
+Qed.
+
+(* with the empty separator and no limit the pieces are the encoded runes *)
+Lemma explode_valid f : forall s, length s <= f -> valid s = true ->
+  explode_fuel f None s = map encode_rune (decode_all s).
+Proof.
+  induction f as [|f IH]; intros s L V; destruct s as [|c r]; try reflexivity; [cbn in L; lia|].
+  cbn [explode_fuel is_zero dec option_map].
+  assert (Hne : c :: r <> []) by discriminate.
+  rewrite (decode_all_step _ Hne). cbn [map].
+  pose proof (valid_step _ Hne) as VS. rewrite V in VS.
+  destruct (decode_rune (c :: r)) as [rn w] eqn:D. cbn [fst snd] in *.
+  destruct ((rn =? RuneError)%N && Nat.eqb w 1) eqn:B; [discriminate|].
+  assert (Hok : rn <> RuneError \/ w <> 1).
+  { apply andb_false_iff in B as [B|B]; [left; apply N.eqb_neq; exact B | right; apply Nat.eqb_neq; exact B]. }
+  rewrite (encode_decode _ _ _ D Hne Hok). f_equal.
+  apply IH; [|symmetry; exact VS].
+  pose proof (skipn_width_shorter _ Hne) as SW. rewrite D in SW. cbn [snd] in SW. cbn [length] in *. lia.
+Qed.
+
+Lemma split_empty_sep_per_rune max s : (max < 0)%Z -> valid s = true ->
+  str_split max [] s = map encode_rune (decode_all s).
+Proof.
+  intros H V. unfold str_split, cuts_of. destruct (Z.eqb_spec max 0); [lia|].
+  destruct (Z.ltb_spec max 0); [|lia]. apply explode_valid; [lia | exact V].
+Qed.
+
+(* ------------------------------------------------------------------ *)
+(* Replace is Split then Join with the new string (no limit) *)
+
+Lemma replace_is_join_split f : forall old new s,
+  replace_fuel f None old new s = join new (splitn_fuel f None old s).
+Proof.
+  induction f as [|f IH]; intros old new s; cbn [replace_fuel splitn_fuel is_zero dec option_map];
+    [reflexivity|].
+  destruct (index s old) as [m|]; [|reflexivity].
+  rewrite join_cons_ne by apply splitn_fuel_ne. rewrite IH. reflexivity.
+Qed.
+
+Lemma str_replace_is_join_split max old new s : (max < 0)%Z -> old <> [] ->
+  str_replace max old new s = join new (str_split max old s).
+Proof.
+  intros H Ho. unfold str_replace, str_split, repls_of, cuts_of.
+  destruct (Z.eqb_spec max 0); [lia|]. destruct (Z.ltb_spec max 0); [|lia].
+  destruct old; [congruence|]. apply replace_is_join_split.
+Qed.
+
+(* ------------------------------------------------------------------ *)
+(* Repeat *)
+
+Lemma repeat_n_length n s : length (repeat_n n s) = n * length s.
+Proof. induction n as [|n IH]; [reflexivity|]. cbn [repeat_n]. rewrite app_length, IH. lia. Qed.
+
+Lemma repeat_n_concat n s : repeat_n n s = concat (repeat s n).
+Proof. induction n as [|n IH]; [reflexivity|]. cbn. rewrite IH. reflexivity. Qed.
+
+Lemma repeat_n_add n m s : repeat_n (n + m) s = repeat_n n s ++ repeat_n m s.
+Proof. induction n as [|n IH]; [reflexivity|]. cbn. rewrite IH. apply app_assoc. Qed.
+
+Lemma repeat_n_nil n : repeat_n n [] = [].
+Proof. induction n as [|n IH]; [reflexivity | exact IH]. Qed.
+
+(* the result is n copies whenever the true product fits an int *)
+Lemma str_repeat_fits s n : (0 <= n)%Z -> (Z.of_nat (length s) * n < two63)%Z ->
+  str_repeat s n = ROk (repeat_n (Z.to_nat n) s).
+Proof.
+  intros Hn Hp. unfold str_repeat.
+  assert (W : wrap64 (Z.of_nat (length s) * n) = (Z.of_nat (length s) * n)%Z).
+  { unfold wrap64. rewrite Z.mod_small; unfold two63 in *; lia. }
+  rewrite W.
+  destruct (Z.ltb_spec n 0); [lia|].
+  destruct (Z.ltb_spec (Z.of_nat (length s) * n) 0); [lia|].
+  destruct (Z.eqb_spec n 0) as [->|]; [reflexivity|].
+  destruct (Z.eqb_spec n 1) as [->|]; [cbn; rewrite app_nil_r; reflexivity|].
+  destruct (Z.leb_spec two63 (Z.of_nat (length s) * n)); [lia|].
+  destruct s; [cbn [is_nil]; rewrite repeat_n_nil; reflexivity | reflexivity].
+Qed.
+
+Lemma str_repeat_negative s n : (n < 0)%Z -> str_repeat s n = RBadValue.
+Proof. intros H. unfold str_repeat. destruct (Z.ltb_spec n 0); [reflexivity | lia]. Qed.
+
+(* the defect: a product that wraps to a non-negative int reaches strings.Repeat *)
+Lemma str_repeat_panics : exists s n, str_repeat s n = RPanic.
+Proof. exists [97; 98; 99; 100]%N, 4611686018427387904%Z. vm_compute. reflexivity. Qed.
+
+(* ------------------------------------------------------------------ *)
+(* code points *)
+
+Lemma decode_all_fuel_valid_runes f : forall s,
+  Forall (fun r => valid_rune r = true) (decode_all_fuel f s).
+Proof.
+  induction f as [|f IH]; intros s; cbn [decode_all_fuel]; [constructor|].
+  destruct s as [|c r]; [constructor|].
+  pose proof (decode_rune_valid_rune (c :: r)) as V.
+  destruct (decode_rune (c :: r)) as [rn w]. constructor; [exact V | apply IH].
+Qed.
+
+Lemma decode_all_valid_runes s : Forall (fun r => valid_rune r = true) (decode_all s).
+Proof. apply decode_all_fuel_valid_runes. Qed.
+
+Lemma valid_rune_le r : valid_rune r = true -> (r <= MaxRune)%N.
+Proof. unfold valid_rune. intros H. apply andb_true_iff in H as [H _]. apply N.leb_le; exact H. Qed.
+
+Lemma from_codepoints_encode rs : Forall (fun r => valid_rune r = true) rs ->
+  from_codepoints (map Z.of_N rs) = ROk (encode_all rs).
+Proof.
+  induction 1 as [|r rs V _ IH]; [reflexivity|].
+  cbn [map from_codepoints]. pose proof (valid_rune_le r V) as L.
+  destruct (Z.ltb_spec (Z.of_N r) 0); [lia|].
+  destruct (Z.ltb_spec (Z.of_N MaxRune) (Z.of_N r)); [lia|].
+  cbn [orb]. rewrite N2Z.id, V, IH. reflexivity.
+Qed.
+
+(* to-codepoints never yields something from-codepoints refuses *)
+Lemma from_to_codepoints s : from_codepoints (to_codepoints s) = ROk (encode_all (decode_all s)).
+Proof. apply from_codepoints_encode, decode_all_valid_runes. Qed.
+
+Lemma codepoints_roundtrip s : valid s = true -> from_codepoints (to_codepoints s) = ROk s.
+Proof. intros V. rewrite from_to_codepoints, encode_all_decode_all by exact V. reflexivity. Qed.
+
+Lemma from_codepoints_ok nums : forall b, from_codepoints nums = ROk b ->
+  to_codepoints b = nums /\ valid b = true
+  /\ Forall (fun n => (0 <= n <= Z.of_N MaxRune)%Z /\ is_surrogate (Z.to_N n) = false) nums.
+Proof.
+  induction nums as [|n r IH]; intros b; cbn [from_codepoints].
+  - intros [= <-]. split; [reflexivity|]. split; [reflexivity | constructor].
+  - destruct (Z.ltb_spec n 0); [discriminate|].
+    destruct (Z.ltb_spec (Z.of_N MaxRune) n); [discriminate|]. cbn [orb].
+    destruct (valid_rune (Z.to_N n)) eqn:V; [|discriminate]. cbn [negb].
+    destruct (from_codepoints r) as [b'| | | |] eqn:F; try discriminate.
+    intros [= <-]. destruct (IH b' eq_refl) as (T & Vb & Fa).
+    unfold to_codepoints in *. rewrite decode_all_encode_app by exact V.
+    cbn [map]. rewrite T, Z2N.id by lia. split; [reflexivity|]. split.
+    + rewrite valid_encode_app by exact V. exact Vb.
+    + constructor; [|exact Fa]. split; [lia|].
+      unfold valid_rune in V. apply andb_true_iff in V as [_ V]. apply negb_true_iff in V. exact V.
+Qed.
+
+Lemma from_codepoints_surrogate n : (55296 <= n <= 57343)%Z -> from_codepoints [n] = RBadValue.
+Proof.
+  intros H. cbn [from_codepoints]. unfold MaxRune.
+  destruct (Z.ltb_spec n 0); [lia|]. destruct (Z.ltb_spec (Z.of_N 1114111) n); [lia|]. cbn [orb].
+  replace (valid_rune (Z.to_N n)) with false; [reflexivity|].
+  symmetry. unfold valid_rune, is_surrogate. apply andb_false_iff. right. apply negb_false_iff.
+  apply andb_true_iff. split; apply N.leb_le; lia.
+Qed.
+
+Lemma from_codepoints_out_of_range n : (n < 0 \/ 1114111 < n)%Z -> from_codepoints [n] = ROutOfRange.
+Proof.
+  intros H. cbn [from_codepoints]. unfold MaxRune.
+  destruct (Z.ltb_spec n 0); [reflexivity|]. destruct (Z.ltb_spec (Z.of_N 1114111) n); [reflexivity|lia].
+Qed.
+
+(* ------------------------------------------------------------------ *)
+(* bytes *)
+
+Lemma map_to_of_N (s : bytes) : map Z.to_N (map Z.of_N s) = s.
+Proof. induction s as [|b s IH]; [reflexivity|]. cbn. rewrite N2Z.id, IH. reflexivity. Qed.
+
+Lemma utf8_bytes_roundtrip s : Forall (fun b => (b < 256)%N) s -> valid s = true ->
+  from_utf8_bytes (to_utf8_bytes s) = ROk s.
+Proof.
+  intros B V. unfold from_utf8_bytes, to_utf8_bytes.
+  replace (existsb _ (map Z.of_N s)) with false.
+  - rewrite map_to_of_N, V. reflexivity.
+  - symmetry. induction B as [|b s Hb _ IH]; [reflexivity|]. cbn [map existsb].
+    rewrite IH. destruct (Z.ltb_spec (Z.of_N b) 0); [lia|]. destruct (Z.ltb_spec 255 (Z.of_N b)); [lia|].
+    reflexivity.
+Qed.
+
+Lemma from_utf8_bytes_ok nums b : from_utf8_bytes nums = ROk b ->
+  to_utf8_bytes b = nums /\ valid b = true /\ Forall (fun n => (0 <= n <= 255)%Z) nums.
+Proof.
+  unfold from_utf8_bytes, to_utf8_bytes.
+  destruct (existsb _ nums) eqn:E; [discriminate|].
+  destruct (valid (map Z.to_N nums)) eqn:V; [|discriminate]. intros [= <-].
+  assert (F : Forall (fun n => (0 <= n <= 255)%Z) nums).
+  { apply Forall_forall. intros n Hn.
+    destruct (Z.ltb_spec n 0) as [L|L]; [|destruct (Z.ltb_spec 255 n) as [L'|L']; [|lia]];
+      exfalso; apply (eq_true_false_abs _ (proj2 (existsb_exists _ _) (ex_intro _ n (conj Hn _))) E).
+    Unshelve. all: cbn beta.
+    - destruct (Z.ltb_spec n 0); [reflexivity | lia].
+    - destruct (Z.ltb_spec 255 n); [apply orb_true_r | lia]. }
+  split; [|split; [exact V|exact F]].
+  clear E V. induction F as [|n r Hn _ IH]; [reflexivity|]. cbn. rewrite Z2N.id, IH by lia. reflexivity.
+Qed.
+
+(* ------------------------------------------------------------------ *)
+(* QuoteMeta and the literal fragment *)
+
+(* semantics of the fragment: which strings a pattern matches as a whole *)
+Inductive item_matches : item -> bytes -> Prop :=
+| MChar b : item_matches (IChar b) [b]
+| MEsc b : item_matches (IEsc b) [b].
+Inductive seq_matches : list item -> bytes -> Prop :=
+| SNil : seq_matches [] []
+| SCons i r w1 w2 : item_matches i w1 -> seq_matches r w2 -> seq_matches (i :: r) (w1 ++ w2).
+
+Lemma seq_matches_denote r w : seq_matches r w <-> w = denote r.
+Proof.
+  split.
+  - induction 1 as [|i r w1 w2 Hi _ IH]; [reflexivity|]. subst w2. destruct Hi; reflexivity.
+  - intros ->. induction r as [|i r IH]; [constructor|].
+    change (denote (i :: r)) with ([item_byte i] ++ denote r). constructor; [|exact IH].
+    destruct i; constructor.
+Qed.
+
+Definition quote_items (s : bytes) : list item :=
+  map (fun b => if is_meta b then IEsc b else IChar b) s.
+
+Lemma parse_quote s : parse_lit (quote_meta s) = Some (quote_items s).
+Proof.
+  induction s as [|b s IH]; [reflexivity|].
+  cbn [quote_meta flat_map quote_items map]. destruct (is_meta b) eqn:M.
+  - cbn [app parse_lit]. rewrite N.eqb_refl, M.
+    change (flat_map _ s) with (quote_meta s). rewrite IH. reflexivity.
+  - cbn [app parse_lit]. destruct (N.eqb_spec b 92) as [->|_]; [discriminate M|].
+    rewrite M. change (flat_map _ s) with (quote_meta s). rewrite IH. reflexivity.
+Qed.
+
+Lemma denote_quote s : denote (quote_items s) = s.
+Proof.
+  induction s as [|b s IH]; [reflexivity|]. cbn. unfold denote, quote_items in IH. rewrite IH.
+  destruct (is_meta b); reflexivity.
+Qed.
+
+(* the language of QuoteMeta s is {s} *)
+Lemma quote_matches_literally s :
+  exists r, parse_lit (quote_meta s) = Some r /\ forall w, seq_matches r w <-> w = s.
+Proof.
+  exists (quote_items s). split; [apply parse_quote|].
+  intros w. rewrite seq_matches_denote, denote_quote. reflexivity.
+Qed.
+
+(* quoting leaves metacharacter-free text alone, and is injective *)
+Lemma quote_meta_plain s : forallb (fun b => negb (is_meta b)) s = true -> quote_meta s = s.
+Proof.
+  induction s as [|b s IH]; [reflexivity|]. cbn [forallb]. intros H.
+  apply andb_true_iff in H as [H1 H2]. apply negb_true_iff in H1.
+  cbn [quote_meta flat_map]. rewrite H1. cbn. f_equal. apply IH; exact H2.
+Qed.
+
+Lemma quote_meta_injective s t : quote_meta s = quote_meta t -> s = t.
+Proof.
+  intros H. pose proof (parse_quote s) as Ps. rewrite H, parse_quote in Ps.
+  injection Ps as E. rewrite <- (denote_quote s), <- (denote_quote t), E. reflexivity.
+Qed.
+
+(* every reported occurrence of a non-empty literal is one, inside the text, and
+   occurrences come in order without overlap *)
+Lemma occ_fuel_sound f : forall off w t a b, In (a, b) (occ_fuel f off w t) ->
+  off <= a /\ b = a + length w /\ b <= off + length t /\ slice t (a - off) (b - off) = w.
+Proof.
+  induction f as [|f IH]; intros off w t a b; cbn [occ_fuel]; [intros []|].
+  destruct (index t w) as [m|] eqn:I; [|intros []].
+  destruct (index_cut t w m I) as (E & L). intros [[= <- <-]|H].
+  - split; [lia|]. split; [lia|]. split; [lia|]. unfold slice.
+    replace (off + m - off) with m by lia. replace (off + m + length w - off - m) with (length w) by lia.
+    destruct (index_some t w m I) as (_ & O & _). apply has_prefix_iff in O as [x ->].
+    rewrite firstn_app, Nat.sub_diag, firstn_all. cbn. apply app_nil_r.
+  - apply IH in H as (H1 & H2 & H3 & H4). rewrite skipn_length in H3. split; [lia|]. split; [lia|]. split; [lia|].
+    unfold slice in *. rewrite <- H4. rewrite skipn_skipn. f_equal; [lia|]. f_equal. lia.
 Qed.
